@@ -17,6 +17,16 @@ CHECKS = {
             "Trusts numpy longdouble arithmetic for the oracle; exact ties (relative gap <= 1e-12) excluded as the property states; NaN/inf samples not generated.",
             "icontract postconditions + independent nearest-point oracle over generated samples",
             "DESIGN.md §5 C01"),
+    "C15": ("exploration",
+            "Every PSK order 2..2^12 and QAM order 4..4^6 (plus BPSK/QPSK) is constructed and driven through histories of 0-4 "
+            "phase-offset changes; after construction and after each change an independent pairwise search finds all "
+            "minimum-distance pairs and checks that their labels differ in one bit.  Gray conversions are checked for all "
+            "integers up to 2^16 (exhaustive), all 2^k and 2^k+-1 up to 2^62 and random 62-bit values in five scalar/array "
+            "forms against a bit-by-bit reference; bit-error counting against int.bit_count over generated array pairs and axes.  "
+            "Two genuine, test-pinned defects are listed as known findings and matched by mechanism only.",
+            "Reference popcount/Gray code are Python big-int; minimum-distance pairs taken within 1e-9 relative; known findings matched only when the emitted table equals the pinned defective table exactly.",
+            "enumeration of constellations + label/neighbour monitor; reference-model comparison for the integer codes",
+            "DESIGN.md §5 C15"),
 }
 
 PENDING_REASON = "check not built yet in this session (design in DESIGN.md §5); will be claimed once its monitors run clean on the unchanged tree"
